@@ -109,13 +109,14 @@ type World struct {
 	KeepWaiting func() bool
 	Start       time.Time
 
-	Stat      Stats
-	Overrun   bool
-	EventLog  []string // only kept when LogEvents
-	LogEvents bool
-	nconn     int
-	ndial     int
-	accepting string
+	Stat       Stats
+	Overrun    bool
+	phaseStart int      // value of Steps when the current settle began
+	EventLog   []string // only kept when LogEvents
+	LogEvents  bool
+	nconn      int
+	ndial      int
+	accepting  string
 }
 
 // Stats are per-run reach counters.
@@ -227,7 +228,11 @@ func (w *World) Quiesce() {
 	synctest.Wait()
 	Progress.Add(1)
 	w.Steps++
-	if w.Steps > w.MaxSteps {
+	// The budget bounds one settle (the steps since the harness last handed something to
+	// the system): a system that does not come to rest within it is livelocked. It is not a
+	// bound on the run: a long plan with bytewise segmentation of large replies
+	// legitimately takes more steps in total.
+	if w.Steps-w.phaseStart > w.MaxSteps {
 		w.Overrun = true
 	}
 	for _, c := range w.Clients {
@@ -480,6 +485,7 @@ func (w *World) Internal() []Event {
 // budget was exhausted.
 func (w *World) Settle() bool {
 	idle := 0
+	w.phaseStart = w.Steps
 	for {
 		w.Quiesce()
 		if w.Overrun {
